@@ -273,7 +273,12 @@ def callLine (d : DSt) (t : Tid) (c : Call) : DSt × String :=
           | none => ""
         | none => ""
       (d', "ok " ++ stateStr d' ++ r)
-    else ({ d' with dead := true }, "hang")
+    else
+      let name := match t with | .p => "P" | .c => "C" | .k i => s!"K{i}"
+      let (n, h) := match d'.s.getTh t with
+        | some th' => needHave d' th'
+        | none => (0, 0)
+      ({ d' with dead := true }, s!"hang {name}:{n}:{h}@d{b01 d'.s.sh.done}")
 
 def specLine (d : DSt) : String := s!"inv {d.cfg.size}"
 
